@@ -1821,10 +1821,25 @@ loop:
 		}
 
 		if fr.Stream() != 0 {
+			// SETTINGS, PING and GOAWAY are about the connection, and one that
+			// names a stream is a connection error (RFC 7540 6.5, 6.7, 6.8).
+			// Handed on as a stream frame it would be dropped: a SETTINGS
+			// frame neither applied nor acknowledged.
+			if t := fr.Type(); t == FrameSettings || t == FramePing || t == FrameGoAway {
+				err = NewGoAwayError(ProtocolError, "connection frame with a stream identifier")
+
+				ReleaseFrameHeader(fr)
+			}
+
 			break
 		}
 
 		switch fr.Type() {
+		case FrameData, FrameHeaders, FramePriority, FrameResetStream, FramePushPromise, FrameContinuation:
+			// And these are about a stream (RFC 7540 6.1-6.4, 6.6, 6.10). A
+			// PUSH_PROMISE here would otherwise get past the refusal that the
+			// read loop has for promises on a stream.
+			err = NewGoAwayError(ProtocolError, "stream frame without a stream identifier")
 		case FrameSettings:
 			st := fr.Body().(*Settings)
 			if !st.IsAck() { // if it has ack, just ignore
